@@ -9,7 +9,7 @@ import time
 
 from . import common, harness, model, render
 
-CHILD_TIMEOUT = 60.0
+CHILD_TIMEOUT = 300.0
 
 
 class Variant:
@@ -194,7 +194,7 @@ class Gated:
         self.finished = False
         self.steps = []
 
-    def wait_step(self, timeout=20.0):
+    def wait_step(self, timeout=180.0):
         """Block until the child announces its next step or exits. Returns the step text or None."""
         if self.finished:
             return None
@@ -233,7 +233,7 @@ class Gated:
         self.pending = None
         os.write(self.grant_w, b"go\n")
 
-    def finish(self, timeout=30.0):
+    def finish(self, timeout=180.0):
         try:
             out, err = self.proc.communicate(timeout=timeout)
         except subprocess.TimeoutExpired:
